@@ -181,7 +181,13 @@ func cmdCheck(argv []string) int {
 			}
 			entrySigs[spec.Entry] = entry.Signature
 			if spec.Witnesses == 0 {
-				spec.Witnesses = 6
+				spec.Witnesses = 40
+			}
+			if w := os.Getenv("GOSYM_WITNESSES"); w != "" {
+				spec.Witnesses, _ = strconv.Atoi(w)
+			}
+			if w := os.Getenv("GOSYM_WORKERS"); w != "" {
+				spec.Workers, _ = strconv.Atoi(w)
 			}
 			sum := Explore(ld.Prog, entry, spec)
 			results = append(results, &specResult{spec: spec, sum: sum, entrySig: entry.Signature})
@@ -228,7 +234,7 @@ func cmdCheck(argv []string) int {
 				// compare observations and covers
 				if c.panicked != "" || !sameObs(c.witness.Obs, c.out) || !sameCovers(c.witness.Covers, c.out) {
 					tracesMismatch++
-					inconclusive = append(inconclusive, fmt.Sprintf("%s: ENGINE-MISMATCH on witness %s: engine obs %v, native %v %s", c.spec.Name, c.name, c.witness.Obs, filterObs(c.out), c.panicked))
+					inconclusive = append(inconclusive, fmt.Sprintf("%s: ENGINE-MISMATCH on witness %s: engine obs %v covers %v, native %v %s nondets %v", c.spec.Name, c.name, c.witness.Obs, c.witness.Covers, c.out, c.panicked, compactND(c.nondets)))
 				} else {
 					traces++
 				}
